@@ -30,6 +30,8 @@ def run_property(prop: str, repo: Path, tier: str, seed: int, write_evidence: bo
         check_overrides(ctx)
         from .rules.common import check_class_state, check_module_effects, check_njit_options, check_special_methods
         check_special_methods(ctx)
+        from .rules.common import check_program_shape
+        check_program_shape(ctx)
         check_module_effects(ctx)
         check_class_state(ctx)
         check_njit_options(ctx)
